@@ -32,3 +32,26 @@ Definition init_pool (k : nat) : pool := repeat [] k.
 (* no two registers sharing a machine register are neighbours *)
 Definition proper (adj : reg -> list reg) (p : pool) : Prop :=
   forall used u v, In used p -> In u used -> In v used -> ~ In u (adj v).
+
+(* ---- model of create_interference_graph (edges as ordered pairs v -> b, as update_edge adds them) ---- *)
+From Coq Require Import MSets.MSetPositive FSets.FMapPositive.
+From SwayV Require Import C08.Spec C08.Model.
+
+Definition virt_out (L : ltab) (ss : list nat) : list reg :=
+  filter is_virt (map key_reg (PS.elements (out_of L ss))).
+
+Definition item_edges (L : ltab) (it : item) : list (reg * reg) :=
+  match it with (i, o, ss) =>
+    let out := virt_out L ss in
+    match kind o with
+    | KMove v c =>
+        if is_virt v then map (fun b => (v, b)) (filter (fun b => andb (negb (N.eqb b c)) (negb (N.eqb b v))) out)
+        else []
+    | _ =>
+        flat_map (fun v => map (fun b => (v, b)) (filter (fun b => negb (N.eqb b v)) out))
+                 (filter is_virt (defs o))
+    end
+  end.
+
+Definition interference_edges (ops : list op) (L : ltab) : list (reg * reg) :=
+  flat_map (item_edges L) (items_of ops).
